@@ -25,7 +25,7 @@ PROPS["C01"] = {
     "witness_always": ["stdlib_scoping"],
     "witness_bound": {"stdlib_scoping": "real VM + full stdlib vs a stack-of-snapshots model: every program of <= 3 operations, of 4 operations opening a group in the first two, of 5 starting with two nested groups (thorough: all 345k programs of <= 5) over 25 operations: {, }, local/global \\count, \\advance, \\countdef alias, \\def of a control sequence and of an ACTIVE character, \\def behind several prefixes (\\long, \\long\\global, \\global\\long\\outer, \\outer\\long\\global), \\let (also of a name to itself), \\catcode, \\globaldefs in {1,-1,0}; separately \\dimen, \\skip and \\toks registers and the integer parameter \\endlinechar next to \\count (each kind has its own save-stack slot) with \\advance / \\multiply / \\divide whose result equals the old value (by 0, by 1: with \\global the value must still become global): 23239 histories of <= 3 operations, of 4 starting with a group, of 5 starting with two nested groups, over 20 operations; separately two elements of the same array variable (\\catcode of two characters), a \\chardef'd name and an active character redefined by \\let / \\def, each locally and globally: 13033 histories of <= 4 operations and of 5 starting with two groups, over 11 operations; separately the CURRENT FONT over every history of <= 6 steps of {, }, three local and one \\global font selector; all values read after every step"},
     "level": "proof",
-    "verus": ["stdext_groupingmap", "texlang_savestack", "texlang_cmdmap", "texlang_vmgroups", "stdlib_prefix", "stdlib_mathvar"],
+    "verus": ["stdext_groupingmap", "texlang_savestack", "texlang_cmdmap", "texlang_vmgroups", "stdlib_prefix", "stdlib_mathvar", "stdlib_defprim"],
     "kani": [],
     "unverified_callers": [
         "texlang/src/vm/mod.rs VM::run_impl dispatch (VM::begin_group/end_group are proved: three stacks in lockstep, unwraps safe)",
